@@ -350,7 +350,9 @@ func (k *keeper) doAccountSettle(ctx sdk.Context, id types.AccountID) (types.Acc
 	heightDelta := sdk.NewInt(ctx.BlockHeight() - account.SettledAt)
 
 	if heightDelta.IsZero() {
-		return account, nil, false, nil
+		// already settled at this height: nothing accrues, but callers that close
+		// the account still need its open payments
+		return account, k.accountOpenPayments(ctx, id), false, nil
 	}
 
 	account.SettledAt = ctx.BlockHeight()
@@ -473,6 +475,8 @@ func (k *keeper) accountWithdraw(ctx sdk.Context, obj *types.Account) error {
 	}
 
 	if obj.Balance.IsZero() {
+		// nothing to pay out, but the (possibly changed) state must be persisted
+		k.saveAccount(ctx, obj)
 		return nil
 	}
 
@@ -494,6 +498,8 @@ func (k *keeper) paymentWithdraw(ctx sdk.Context, obj *types.Payment) error {
 	}
 
 	if obj.Balance.IsZero() {
+		// nothing to pay out, but the (possibly changed) state must be persisted
+		k.savePayment(ctx, obj)
 		return nil
 	}
 
